@@ -10,8 +10,10 @@ open Pysnark.QapEq
 def sigIn (c : String) (s : Sig) : Bool := s.all fun cw => cw.2.1 == c
 
 /-- the event respects the context it happens in: traced equations, `LinComb` arguments (at the call)
-and `LinComb` results (at the return) mention only wires of the current context, and the call on top of
-the stack has at least one `LinComb` argument or result -/
+and `LinComb` results (at the return) mention only wires of the current context, the call on top of
+the stack has at least one `LinComb` argument or result, no guard is in effect when a call returns
+(`ensure_single` would tie its fresh wires to the guard, whose wires live in ONE context while the two
+blocks live in two), and no body raises (`vc_ctx` is not restored by an exception) -/
 def scopedOp (s : St) : Op → Bool
   | .con a b c => sigIn s.ctx a && sigIn s.ctx b && sigIn s.ctx c
   | .enter _ args _ _ _ => args.all fun a => !isL a || sigIn s.ctx a.lc.sig
@@ -19,7 +21,8 @@ def scopedOp (s : St) : Op → Bool
     (rets.all fun a => !isL a || sigIn s.ctx a.lc.sig) &&
     (match s.stack with
      | f :: _ => !f.argret.isEmpty || rets.any isL
-     | [] => true)
+     | [] => true) && s.guard.isNone
+  | .abort => false
   | _ => true
 
 /-- every event of the history respects the context it happens in (decidable: runs the model) -/
@@ -352,7 +355,7 @@ theorem sigIn_neg (c : String) (p : Int) (s : Sig) (h : sigIn c s = true) : sigI
   obtain ⟨e, he, rfl⟩ := hcw
   exact h e he
 
-theorem ensureSingle_scope (cfg : Cfg) (x : LC) (s : St) (hx : InCtx s.ctx x) :
+theorem ensureSingle_scope (cfg : Cfg) (x : LC) (s : St) (hx : InCtx s.ctx x) (hg : s.guard = none) :
     Headed s.ctx (ensureSingle cfg x s).1 ∧ ScopeStep s (ensureSingle cfg x s).2 := by
   cases h : isSingle cfg x with
   | true =>
@@ -364,7 +367,7 @@ theorem ensureSingle_scope (cfg : Cfg) (x : LC) (s : St) (hx : InCtx s.ctx x) :
       exact ⟨c, w, hs, hx (c, w) (by rw [hs]; simp)⟩
     · cases h
   | false =>
-    rw [ensureSingle_neg _ _ _ h]
+    rw [ensureSingle_neg _ _ _ h hg]
     refine ⟨⟨1, nextSid s, rfl, rfl⟩,
       ⟨⟨[conLine [] [] (Sig.sub cfg.p [(1, nextSid s)] x.sig)], by simp, ?_⟩, rfl, rfl⟩⟩
     intro l hl
@@ -380,14 +383,15 @@ theorem ensureSingle_scope (cfg : Cfg) (x : LC) (s : St) (hx : InCtx s.ctx x) :
     · rfl
     · exact h2 cw hcw
 
-theorem ensureAll_scope (cfg : Cfg) (xs : List LC) : ∀ (s : St), (∀ x ∈ xs, InCtx s.ctx x) →
+theorem ensureAll_scope (cfg : Cfg) (xs : List LC) : ∀ (s : St), (∀ x ∈ xs, InCtx s.ctx x) → s.guard = none →
     (∀ y ∈ (ensureAll cfg xs s).1, Headed s.ctx y) ∧ ScopeStep s (ensureAll cfg xs s).2 := by
   induction xs with
-  | nil => intro s _; exact ⟨by simp [ensureAll], ScopeStep.refl s⟩
+  | nil => intro s _ _; exact ⟨by simp [ensureAll], ScopeStep.refl s⟩
   | cons x xs ih =>
-    intro s hx
-    obtain ⟨h1, h2⟩ := ensureSingle_scope cfg x s (hx x (by simp))
+    intro s hx hg
+    obtain ⟨h1, h2⟩ := ensureSingle_scope cfg x s (hx x (by simp)) hg
     obtain ⟨g1, g2⟩ := ih (ensureSingle cfg x s).2 (by rw [h2.2.1]; exact fun y hy => hx y (by simp [hy]))
+      (by rw [ensureSingle_guard]; exact hg)
     simp only [ensureAll]
     refine ⟨?_, h2.trans g2⟩
     intro y hy
@@ -397,8 +401,9 @@ theorem ensureAll_scope (cfg : Cfg) (xs : List LC) : ∀ (s : St), (∀ x ∈ xs
     · have := g1 y hy; rwa [h2.2.1] at this
 
 theorem declareBlock_scope (cfg : Cfg) (bn : String) (vcs : List LC) (rnd1 rnd2 : Int) (s : St)
-    (hne : vcs ≠ []) (hx : ∀ x ∈ vcs, InCtx s.ctx x) : ScopeStep s (declareBlock cfg bn vcs rnd1 rnd2 s).2 := by
-  obtain ⟨h1, h2⟩ := ensureAll_scope cfg vcs s hx
+    (hne : vcs ≠ []) (hx : ∀ x ∈ vcs, InCtx s.ctx x) (hg : s.guard = none) :
+    ScopeStep s (declareBlock cfg bn vcs rnd1 rnd2 s).2 := by
+  obtain ⟨h1, h2⟩ := ensureAll_scope cfg vcs s hx hg
   let s1 := (ensureAll cfg vcs s).2
   have e : (declareBlock cfg bn vcs rnd1 rnd2 s).2 =
        flush (emit (blockLine s1.ctx bn (ensureAll cfg vcs s).1)
@@ -421,19 +426,22 @@ theorem scope_setctx_bump (s : St) (c : String) :
     (bump c { s with ctx := c }).stack = s.stack := ⟨rfl, rfl, rfl⟩
 
 theorem vcGlue_scope (cfg : Cfg) (c1 c2 : String) (vals : List (LC × LC)) (rndv r2a r2b : Int) (s : St)
-    (hne : vals ≠ []) (h1 : ∀ ab ∈ vals, InCtx c1 ab.1) (h2 : ∀ ab ∈ vals, InCtx c2 ab.2) :
+    (hne : vals ≠ []) (h1 : ∀ ab ∈ vals, InCtx c1 ab.1) (h2 : ∀ ab ∈ vals, InCtx c2 ab.2) (hg : s.guard = none) :
     ScopeStep s (vcGlue cfg c1 c2 vals rndv r2a r2b s) := by
   let s1 : St := { s with ctx := c1 }
   let bn1 := toString (dget s1.ctr c1)
   let s2 := bump c1 s1
   have A := declareBlock_scope cfg bn1 (vals.map Prod.fst) rndv r2a s2 (by simpa using hne)
-    (by intro x hx; obtain ⟨ab, hab, rfl⟩ := List.mem_map.1 hx; exact h1 ab hab)
+    (by intro x hx; obtain ⟨ab, hab, rfl⟩ := List.mem_map.1 hx; exact h1 ab hab) hg
   let s3 := (declareBlock cfg bn1 (vals.map Prod.fst) rndv r2a s2).2
   let s4 : St := { s3 with ctx := c2 }
   let bn2 := toString (dget s4.ctr c2)
   let s5 := bump c2 s4
   have B := declareBlock_scope cfg bn2 (vals.map Prod.snd) rndv r2b s5 (by simpa using hne)
     (by intro x hx; obtain ⟨ab, hab, rfl⟩ := List.mem_map.1 hx; exact h2 ab hab)
+    (by
+      have : s5.guard = s.guard := declareBlock_guard cfg bn1 (vals.map Prod.fst) rndv r2a s2
+      rw [this]; exact hg)
   let s6 := (declareBlock cfg bn2 (vals.map Prod.snd) rndv r2b s5).2
   let s7 : St := { s6 with ctx := s.ctx }
   have e : vcGlue cfg c1 c2 vals rndv r2a r2b s = flush (emit (glueLine c1 bn1 c2 bn2) s7) := rfl
@@ -544,6 +552,8 @@ theorem scope_step (cfg : Cfg) (s : St) (op : Op) (hs : ScopeInv s) (ho : scoped
     ScopeInv (step cfg s op) := by
   cases op with
   | priv v => exact ⟨hs.lines, hs.chain, hs.frames⟩
+  | guard g => exact ⟨hs.lines, hs.chain, hs.frames⟩
+  | abort => simp [scopedOp] at ho
   | pub v =>
     refine ⟨?_, hs.chain, hs.frames⟩
     intro l hl
@@ -611,7 +621,8 @@ theorem scope_step (cfg : Cfg) (s : St) (op : Op) (hs : ScopeInv s) (ho : scoped
       let s1 := continuefn f.old { s with stack := rest }
       obtain ⟨g1, g2, g3⟩ := copyRets_scope rets s1
       simp only [scopedOp, hst, Bool.and_eq_true, List.all_eq_true, Bool.or_eq_true, Bool.not_eq_true'] at ho
-      obtain ⟨ho1, ho2⟩ := ho
+      obtain ⟨⟨ho1, ho2⟩, hog⟩ := ho
+      have hgn : s.guard = none := by simpa using hog
       have hne : f.argret ++ (copyRets rets s1).1 ≠ [] := by
         intro e
         simp only [List.append_eq_nil_iff] at e
@@ -633,6 +644,7 @@ theorem scope_step (cfg : Cfg) (s : St) (op : Op) (hs : ScopeInv s) (ho : scoped
             rw [hl] at this
             simp only [Bool.true_eq_false, false_or] at this
             rw [he, ← hc1]; exact (sigIn_iff _ _).1 this)
+        (by rw [copyRets_guard]; exact hgn)
       have l1 : ∀ l ∈ s1.eqs, LineOK l := hs.lines
       have tot := g2.trans G
       refine ⟨tot.lines l1, ?_, ?_⟩
